@@ -284,6 +284,10 @@ class ProgGen:
                 ops.append({"op": "child", "h": h, "p": top, "ty": r.choice(self.aty), "c": True})
                 for _ in range(r.randint(0, 2)):
                     ops.append({"op": "log", "h": h, "ty": r.choice(self.mty), "how": "alog", "c": True})
+                    if r.random() < 0.4:
+                        g = self.h()
+                        ops += [{"op": "child", "h": g, "p": h, "ty": r.choice(self.aty), "c": True},
+                                {"op": "finish", "h": g, "ok": r.random() < 0.6, "how": "finish", "c": True}]
                 ops.append({"op": "finish", "h": h, "ok": r.random() < 0.6, "how": r.choice(["finish", "with"]), "c": True})
             else:
                 ops.append({"op": "log", "h": top, "ty": r.choice(self.mty), "how": r.choice(["alog", "ctx"]), "c": True})
@@ -315,7 +319,7 @@ def random_programs(tier):
     for kind, n, size in PROGRAMS[tier]:
         for _ in range(n):
             g = ProgGen(random.Random(rng.randint(0, 10 ** 9)), kind, rng.randint(3, size))
-            progs.append({"kind": kind, "ops": g.program(), "seed": rng.randint(0, 10 ** 9)})
+            progs.append({"module": "checks_c17", "engine": "helpers-tla", "kind": kind, "ops": g.program(), "seed": rng.randint(0, 10 ** 9)})
     return progs
 
 
@@ -362,7 +366,7 @@ def run(prop, tier):
             rep.add_tlc("MC_Helpers %s" % name, r, consts)
             if r.violated:
                 rep.violation("TLC: invariant %s violated on Helpers.tla (%s)" % (r.violated, name),
-                              {"kind": "spec", "config": consts, "tlc_tail": r.out[-6000:]})
+                              {"module": "checks_c17", "engine": "helpers-tla", "kind": "spec", "config": consts, "tlc_tail": r.out[-6000:]})
                 continue
             if not ps:
                 raise MachineryFailure("MC_Helpers %s printed no predictions" % name)
@@ -386,7 +390,7 @@ def run(prop, tier):
             if clause:
                 bad_a += 1
                 rep.violation("real helpers differ from Helpers.tla on an enumerated list: clause %s (%s); list %s" % (clause, where, p["S"]),
-                              {"kind": "list", "clause": clause, "where": where, "pred": p})
+                              {"module": "checks_c17", "engine": "helpers-tla", "kind": "list", "clause": clause, "where": where, "pred": p})
         # the same answers, judged by TLC as well (all hand-written lists, a sample of the generated ones)
         rng = random.Random(SEED)
         idx = [i for i, p in enumerate(preds) if p["cfg"] == "hand"]
@@ -396,7 +400,7 @@ def run(prop, tier):
         for (clause, o), i in zip(verdicts, idx):
             if clause and not compare(preds[i], obs[i])[0]:
                 rep.violation("TLC (Trace_Helpers) rejects the real helpers' answers on an enumerated list: clause %s; list %s" % (clause, preds[i]["S"]),
-                              {"kind": "list", "clause": clause, "pred": preds[i]})
+                              {"module": "checks_c17", "engine": "helpers-tla", "kind": "list", "clause": clause, "pred": preds[i]})
         # ---- code -> spec
         verdicts, st2 = validate_traces(pobs)
         rep.cov["states"] += st1 + st2
@@ -414,7 +418,7 @@ def run(prop, tier):
             if clause:
                 rep.violation("real helpers differ from Helpers.tla on a list captured from a program: clause %s; list %s" % (
                     clause, [[m["u"], m["lv"], m["k"], m["ty"], m["st"]] for m in S]),
-                              {"kind": "program", "clause": clause, "program": prog})
+                              {"module": "checks_c17", "engine": "helpers-tla", "kind": "program", "clause": clause, "program": prog})
         rep.cov["program_kinds"] = kinds
         rep.cov["lists_enumerated_by_tlc"] = len(preds)
         rep.cov["captured_lists_outside_domain"] = ood
